@@ -72,6 +72,7 @@ func main() {
 	case "part-replay":
 		die(partdrv.Replay(*in, *trace, *out, "s", "p"))
 	case "tamper-replay":
+		tamperdrv.CurrentCase = *trace + ".current"
 		die(tamperdrv.Replay(*in, *trace, *out, *seed, *long))
 	case "server-replay":
 		die(srvdrv.Replay(*in, *trace, *out, *seed, *conc, *long))
